@@ -181,12 +181,13 @@ pub fn wide_block(cx: &mut Ctx, kinds: &[WideKind], per_kind: usize, o: &XOpts) 
     cx.notes.push(format!("wide plans: {n} programs of 130..400 rows over 3/11/40/150 keys x partitions from {{65,66,100,127,128,129,200,256}} x {kinds:?}"));
 }
 
-/// one 4000-row x 2000-key case (oracle only: the request would be ~50 KB per mode)
+/// one 12000-row x 5000-key case (oracle only: the request would be ~150 KB per mode); with 2..3 partitions every
+/// partition holds > 4096 groups and most keys span partitions (round-4 seeded change C04-5: a large-merge path gated at 4096 groups)
 pub fn many_keys_case(cx: &mut Ctx, steps: Vec<Step>, modes: &[Mode]) {
-    check_prog_oracle_only(cx, &many_keys_prog(steps), "rows=4000 keys=2000", modes);
+    check_prog_oracle_only(cx, &many_keys_prog(steps), "rows=12000 keys=5000", modes);
 }
 pub fn many_keys_prog(steps: Vec<Step>) -> Prog {
-    let src: Vec<V> = (0..4000i64).map(|i| kv((i * 7919) % 2000, i % 97)).collect();
+    let src: Vec<V> = (0..12000i64).map(|i| kv((i * 7919) % 5000, i % 97)).collect();
     Prog { shape: Shape::KV, src, steps }
 }
 
